@@ -225,6 +225,11 @@ fn family_member(fam: usize, i: usize) -> Option<(String, Value, Value)> {
         21 => ("max_by(@, &to_number(k)).id".to_string(), json!([{"id": 1, "k": i.to_string()}, {"id": 2, "k": (i + 1).to_string()}]), json!(2)),
         22 => (format!("{{a: `{}`, b: '{}'}}.b", i, i), json!({"z": 0}), json!(i.to_string())),
         23 => (format!("[?k == `{}`].id | [0]", i), json!([{"k": i + 1, "id": "no"}, {"k": i, "id": "yes"}]), json!("yes")),
+        // integers that are distinct but share one double (compared as text below)
+        24 => ("id".to_string(), json!({"id": 9007199254740992u64 + i as u64}), json!(9007199254740992u64 + i as u64)),
+        25 => ("[0].v".to_string(), json!([{"v": -9007199254740992i64 - i as i64}, 1]), json!(-9007199254740992i64 - i as i64)),
+        26 => ("n".to_string(), json!({"n": 18446744073709551615u64 - i as u64, "m": [9223372036854775807u64 + i as u64]}), json!(18446744073709551615u64 - i as u64)),
+        27 => ("to_string(@)".to_string(), json!([9007199254740993u64 + 2 * (i as u64 % 50)]), json!(format!("[{}]", 9007199254740993u64 + 2 * (i as u64 % 50)))),
         _ => return None,
     })
 }
@@ -241,7 +246,11 @@ fn check_member(rep: &mut Report, fam: usize, i: usize, phase: &str, rt: Option<
         None => jmespath::compile(&text).and_then(|x| x.search(&input)),
     });
     let ok = match &r {
-        Ok(Ok(v)) => value_of(v).map_or(false, |g| refimpl::json::val_eq(&g, &want, 0.0)),
+        Ok(Ok(v)) => {
+            value_of(v).map_or(false, |g| refimpl::json::val_eq(&g, &want, 0.0))
+                // integers also digit for digit (two integers beyond 2^53 can be "equal" as doubles)
+                && (!(want.as_u64().map_or(false, |u| u >= 1 << 53) || want.as_i64().map_or(false, |i| i <= -(1 << 53))) || v.to_string() == want.to_string())
+        }
         _ => false,
     };
     if ok {
@@ -269,9 +278,9 @@ fn check_member(rep: &mut Report, fam: usize, i: usize, phase: &str, rt: Option<
 /// then descending, then in a shuffled order with revisits, then round-robin
 /// across families.
 fn family_sweep(rep: &mut Report, args: &Args) {
-    let n: usize = args.kv.get("family-n").and_then(|v| v.parse().ok()).unwrap_or(300);
+    let n: usize = args.kv.get("family-n").and_then(|v| v.parse().ok()).unwrap_or(if args.tier == "thorough" { 5000 } else { 300 });
     let rt = make_runtime();
-    let fams: Vec<usize> = (0..24).filter(|f| (*f as u64) % args.shards == args.shard).collect();
+    let fams: Vec<usize> = (0..28).filter(|f| (*f as u64) % args.shards == args.shard).collect();
     for &fam in &fams {
         for i in 0..n {
             check_member(rep, fam, i, "ascending", None);
@@ -289,11 +298,11 @@ fn family_sweep(rep: &mut Report, args: &Args) {
     let lo = (args.shard as usize * n) / args.shards as usize;
     let hi = ((args.shard as usize + 1) * n) / args.shards as usize;
     for i in lo..hi {
-        for fam in 0..24 {
+        for fam in 0..28 {
             check_member(rep, fam, i, "round-robin", None);
         }
     }
-    rep.extra.insert("family_sweep".into(), json!({"families": 24, "members_per_family": n}));
+    rep.extra.insert("family_sweep".into(), json!({"families": 28, "members_per_family": n}));
 }
 
 /// Two inputs of the same length that differ in a single byte, at every position,
@@ -430,8 +439,32 @@ fn whitespace_pairs(rep: &mut Report, args: &Args) {
     }
 }
 
+/// A runtime on which nothing was registered resolves no function, whatever other runtimes
+/// (the default one included) did before, on this thread or another.
+fn bare_runtime_probe(rep: &mut Report, when: &str) {
+    let bare = Runtime::new();
+    let doc = rcvar_of(&json!([1, 2, 3]));
+    for text in ["length(@)", "[0] | abs(@)", "@[*].to_string(@)", "sort_by(@, &@)", "type(`1`)"] {
+        rep.evaluations += 1;
+        match guarded(|| bare.compile(text).and_then(|e| e.search(&doc))) {
+            Ok(Err(e)) if err_class(&e) == "unknown-function" => rep.count("bare_runtime_resolves_nothing"),
+            other => rep.violation(
+                "C13/result-depends-on-history/bare-runtime-resolves-a-function",
+                json!({"expression": text, "when": when, "got": format!("{:?}", other.map(|r| r.map(|v| v.to_string()).map_err(|e| e.to_string())))}),
+            ),
+        }
+    }
+}
+
 pub fn run(args: &Args) {
     let mut rep = Report::new("C13");
+    // first library use of this process: nothing has touched any runtime yet
+    bare_runtime_probe(&mut rep, "first library use of the process");
+    let other = std::thread::spawn(|| {
+        let _ = jmespath::compile("foo.bar").map(|e| e.search(()).map(|v| v.to_string()));
+    });
+    let _ = other.join();
+    bare_runtime_probe(&mut rep, "after another thread used the default runtime");
     gap_sweep(&mut rep, args);
     family_sweep(&mut rep, args);
     one_byte_variants(&mut rep, args);
@@ -552,5 +585,6 @@ pub fn run(args: &Args) {
             rep.sample(json!({"history": h, "pool_seed": pool_seed, "expressions": exprs.iter().take(6).collect::<Vec<_>>(), "operations": ops_per_history}));
         }
     }
+    bare_runtime_probe(&mut rep, "after all histories of this process");
     emit_report(args, &rep);
 }
